@@ -13,6 +13,8 @@ import ScriggoV.Model.ComposeEngine
   gen <main> <fuel> <nfiles> file* table  → the same with both fast paths switched off
   site <fmt> <ctx> <hex>                  → ok <macroGuard> <renderGuard> <choice> <compatible> <hex fast>
   status                                  → ok <renderGuarded>
+Macro names are numbers: even = exported (`M⟨n/2⟩` in the sources the harness writes), odd = unexported
+(`m⟨n/2⟩`); see `exported` in Model/Compose.lean.
 The Markdown converter of the harness is `<md>` ++ src ++ `</md>`. -/
 namespace ScriggoV.Drv.C16
 open ScriggoV ScriggoV.Compose ScriggoV.Gen
